@@ -6,9 +6,15 @@
  * file, you can obtain one at https://mozilla.org/MPL/2.0/.
  */
 
+#include <algorithm>
 #include <iostream>
 
 #include "writer.h"
+
+/**
+ * @brief Upper limit for the size of the buffer for compressed data (write_gzip(), write_lzma())
+ */
+static constexpr std::size_t MAX_OUT_BUFFER_SIZE = 65536;
 
 void CDNS::GzipCborOutputWriter::write(const char* p, std::size_t size)
 {
@@ -48,7 +54,8 @@ void CDNS::GzipCborOutputWriter::close()
 
 int CDNS::GzipCborOutputWriter::write_gzip(std::size_t in_size, int action)
 {
-    std::size_t size = in_size + in_size / 3 + 128;
+    // The buffer lives on the stack, don't let its size grow with the size of the input
+    std::size_t size = std::min<std::size_t>(in_size + in_size / 3 + 128, MAX_OUT_BUFFER_SIZE);
     uint8_t buff[size];
 
     // Set output buffer
@@ -101,7 +108,8 @@ void CDNS::XzCborOutputWriter::close()
 
 lzma_ret CDNS::XzCborOutputWriter::write_lzma(std::size_t in_size, lzma_action action)
 {
-    std::size_t size = in_size + in_size / 3 + 128;
+    // The buffer lives on the stack, don't let its size grow with the size of the input
+    std::size_t size = std::min<std::size_t>(in_size + in_size / 3 + 128, MAX_OUT_BUFFER_SIZE);
     uint8_t buff[size];
 
     // Set output buffer
